@@ -167,6 +167,7 @@ type vmCfg struct {
 	PerAdder  int
 	Close     string // none | after | during
 	ConnClose bool   // the connection is closed mid-way: only "at most once" remains
+	Bulk      bool   // getters carry no data (isNil): hundreds of thousands of Adds per trial, only the invocation counts are judged
 	Mode      int
 	P, Q      int
 }
@@ -265,10 +266,16 @@ func vmTrial(r *vfRng, cfg vmCfg) (res vmResult) {
 				}
 				g := func() (netpoll.Writer, bool) {
 					atomic.AddInt32(&counts[id], 1)
+					if cfg.Bulk {
+						return nil, true
+					}
 					return vmFrame(uint32(id), n), false
 				}
 				q.Add(g)
 				atomic.StoreInt64(&addedAt[id], vfNow())
+				if cfg.Bulk {
+					continue
+				}
 				if ar.chance(30) {
 					runtime.Gosched()
 				}
@@ -347,6 +354,28 @@ func vmTrial(r *vfRng, cfg vmCfg) (res vmResult) {
 		return cc == 0 || (at != 0 && at < cc)
 	}
 	// bounded progress without any further Add
+	if cfg.Bulk {
+		// no frames travel: a getter counts as delivered when it was invoked
+		for dl := time.Now().Add(8 * time.Second); time.Now().Before(dl); {
+			missing := 0
+			for id := range counts {
+				if must(id) && atomic.LoadInt32(&counts[id]) == 0 {
+					missing++
+				}
+			}
+			if missing == 0 {
+				break
+			}
+			time.Sleep(200 * time.Microsecond)
+		}
+		peer.mu.Lock()
+		for id := range counts {
+			if c := atomic.LoadInt32(&counts[id]); c > 0 {
+				peer.seen[uint32(id)] = 1
+			}
+		}
+		peer.mu.Unlock()
+	}
 	deadline := time.Now().Add(8 * time.Second)
 	for time.Now().Before(deadline) {
 		missing := 0
@@ -432,7 +461,7 @@ func vmTrial(r *vfRng, cfg vmCfg) (res vmResult) {
 		}
 	}
 	res.nontrivial = cfg.Adders >= 2
-	res.sig = fmt.Sprintf("shards=%d|adders=%d|close=%s|connclose=%v|mode=%d|real=%v", vmClass(cfg.Shards), vmClass(cfg.Adders), cfg.Close, cfg.ConnClose, cfg.Mode, res.realised)
+	res.sig = fmt.Sprintf("shards=%d|adders=%d|close=%s|connclose=%v|mode=%d|real=%v|bulk=%v", vmClass(cfg.Shards), vmClass(cfg.Adders), cfg.Close, cfg.ConnClose, cfg.Mode, res.realised, cfg.Bulk)
 	return
 }
 
@@ -456,6 +485,12 @@ func vmGenCfg(r *vfRng) vmCfg {
 	cfg.PerAdder = r.rng(1, 40)
 	if cfg.Adders*cfg.PerAdder > 1500 {
 		cfg.PerAdder = 1500 / cfg.Adders
+	}
+	if r.chance(8) {
+		cfg.Bulk = true
+		cfg.Shards = []int{2, 8, 32}[r.intn(3)]
+		cfg.Adders = []int{4, 16, 32}[r.intn(3)]
+		cfg.PerAdder = r.rng(2000, 12000)
 	}
 	cfg.Close = []string{"none", "none", "after", "during"}[r.intn(4)]
 	cfg.ConnClose = r.chance(10)
@@ -500,6 +535,8 @@ func TestVerifMux(t *testing.T) {
 		{Shards: 1, Adders: 16, PerAdder: 30, Close: "none", Mode: 2, P: vpWorkerAfterRunNum, Q: vpTriggeringAfterCount},
 		{Shards: 2, Adders: 8, PerAdder: 20, Close: "during", Mode: 2, P: vpWorkerAfterFlush, Q: vpAddAfterAppend},
 		{Shards: 32, Adders: 64, PerAdder: 20, Close: "after", Mode: 1},
+		{Shards: 8, Adders: 16, PerAdder: 20000, Close: "none", Bulk: true},
+		{Shards: 2, Adders: 16, PerAdder: 10000, Close: "after", Bulk: true},
 	}
 	first := from
 	if from == 0 && vfEnvInt("VERIF_NO_DIRECTED", 0) == 0 {
